@@ -185,10 +185,16 @@ def case_engine(case, res):
                 if prev_last is not None:
                     pstep, plavg, pimm, pty = prev_last[c]
                     cur = np.exp(plavg) if (pty in (1, 2) and tuned) else pstep
+                    alt = cur
                     if pimm is not None and pty == 2:
+                        # HMC/NUTS rescale the step when the mass matrix is re-tuned; the step size
+                        # between end_epoch and start_epoch is not observable, so both the plain and
+                        # the rescaled value count as "the current step size"
                         new_imm = imm[c, t0]
                         tr = (lambda m: np.trace(m)) if new_imm.ndim == 2 else (lambda m: np.sum(m))
-                        cur = cur * np.sqrt(tr(pimm) / tr(new_imm))
+                        alt = cur * np.sqrt(tr(pimm) / tr(new_imm))
+                    if abs(step_start - alt) <= 2e-4 * alt:
+                        cur = alt
                 if abs(step_start - cur) > 2e-4 * cur:
                     res.violation("restart-value", f"epoch {ei + 1} (chain {c}): dual averaging restarted from step "
                                   f"{step_start} (mu={mu_e}) but the kernel's current step size is {cur}", w)
@@ -224,10 +230,13 @@ def case_engine(case, res):
                 if prev_last is not None and prev_last[c][3] in (1, 2) and tuned:
                     pstep, plavg, pimm, pty = prev_last[c]
                     exp_step = np.exp(plavg)
+                    alt = exp_step
                     if pimm is not None and pty == 2:
                         new_imm = imm[c, t0]
                         tr = (lambda m: np.trace(m)) if new_imm.ndim == 2 else (lambda m: np.sum(m))
-                        exp_step = exp_step * np.sqrt(tr(pimm) / tr(new_imm))
+                        alt = exp_step * np.sqrt(tr(pimm) / tr(new_imm))
+                    if abs(step[c, t0] - alt) <= 3e-5 * alt * (1 + abs(plavg)):
+                        exp_step = alt
                     res.mon("averaged_step_installed")
                     if abs(step[c, t0] - exp_step) > 3e-5 * exp_step * (1 + abs(plavg)):
                         res.violation("average-not-installed", f"epoch {ei + 1} runs with step {step[c, t0]}, the averaged "
